@@ -31,7 +31,27 @@ TEMPLATES = [
 ]
 
 
+def with_docstrings(t):
+    """the template with a doc-string statement (and a comment) placed before, between and after its top-level statements:
+    whatever stands in the module, the support imports come first"""
+    lines = t.rstrip("\n").split("\n")
+    tops = [i for i, l in enumerate(lines) if l and not l.startswith((" ", "else"))] + [len(lines)]
+    out = []
+    for doc in ('"""note"""', '"""two\nlines"""', "# remark"):
+        for i in sorted(set([tops[0], tops[len(tops) // 2], tops[-1]])):
+            out.append("\n".join(lines[:i] + [doc] + lines[i:]) + "\n")
+        if len(tops) > 2:
+            out.append("\n".join([doc] + lines[:tops[1]] + [doc] + lines[tops[1]:]) + "\n")
+    return out
+
+
+N_BASE = len(TEMPLATES)
+
+
 def run(chk):
+    global TEMPLATES
+    if len(TEMPLATES) == N_BASE:
+        TEMPLATES = TEMPLATES + [v for t in TEMPLATES[:N_BASE] for v in with_docstrings(t)]
     thorough = chk.tier == "thorough"
     ok = chk.build_harness()
     if chk.lake_build(["MambaVerif.Props.C16", "mvdrv"]):
